@@ -279,8 +279,12 @@ def gen_case(r: Any) -> dict:
     stop = 125 * r.randrange(0, 160) if r.random() < 0.35 else None
     spawn = r.choice([0, 0, 0, 1000, 2625])
     late = sorted(125 * r.randrange(0, 120) for _ in range(r.choice([0, 0, 0, 1, 2])))
-    return {'cfg': cfg, 'script': script, 'resets': resets, 'late': late, 'stop': stop, 'irt0': 0,
-            'spawn': spawn, 'horizon': 40000}
+    # every essential change reaches the operator as a watch event (ADDED/MODIFIED) or only through a (re-)listing
+    # (type None: edited while the watch stream was down); non-essential events (status/resourceVersion only) too
+    etypes = [r.choice([None, None, 'MODIFIED', 'MODIFIED', 'ADDED']) for _ in range(r.choice([1, 2, 3, 5]))]
+    noise = sorted(125 * r.randrange(0, 120) for _ in range(r.choice([0, 0, 1, 2, 4])))
+    return {'cfg': cfg, 'script': script, 'resets': resets, 'late': late, 'noise': noise, 'etypes': etypes, 'stop': stop,
+            'irt0': 0, 'spawn': spawn, 'horizon': 40000}
 
 
 def coincide(r: Any, case: dict) -> dict:
@@ -344,6 +348,10 @@ CORPUS: list[dict] = [
     {'cfg': {'interval': 1000, 'idle': 2000}, 'script': [[125, 0, 'ok']] * 3, 'irt0': -10000, 'resets': [1125]},
     # HandlerChildrenRetry: retried after its own delay, no look-ahead checks although retries=1 / timeout are set
     {'cfg': {'interval': 1000, 'retries': 1, 'timeout': 100}, 'script': [[250, 0, ['child', 500]], [0, 0, ['child', None]], [0, 0, 'ok'], [0, 0, 'ok']]},
+    # an essential change that reaches the operator only through a re-listing (type None) postpones the run like any other
+    {'cfg': {'interval': 1000, 'idle': 2000}, 'script': [[125, 0, 'ok']] * 3, 'irt0': -10000, 'resets': [1000], 'etypes': [None]},
+    {'cfg': {'idle': 2000}, 'script': [[125, 0, 'ok']] * 3, 'irt0': -10000, 'resets': [1000, 5000], 'noise': [500, 1500, 4000],
+     'etypes': [None, 'MODIFIED', None]},
     # regression for finding F1001 (fixed in /repo 071710e): the idle wait must not count towards the handler's timeout
     {'cfg': {'interval': 1000, 'idle': 4000, 'timeout': 1000}, 'script': [[125, 0, 'ok']] * 3},
     {'cfg': {'interval': 1000, 'idle': 2000, 'timeout': 1000}, 'script': [[125, 0, 'ok']] * 3, 'irt0': -10000, 'resets': [1000]},
@@ -360,7 +368,8 @@ def norm_case(c: dict) -> dict:
            'backoff': None, 'errors': None}
     cfg.update(c.get('cfg', {}))
     return {'cfg': cfg, 'script': [list(e) for e in c['script']], 'resets': sorted(c.get('resets', [])),
-            'late': sorted(c.get('late', [])), 'stop': c.get('stop'),
+            'late': sorted(c.get('late', [])), 'noise': sorted(c.get('noise', [])), 'etypes': c.get('etypes') or ['MODIFIED'],
+            'stop': c.get('stop'),
             'irt0': c.get('irt0', 0), 'spawn': c.get('spawn', 0), 'horizon': c.get('horizon', 40000)}
 
 
@@ -382,6 +391,13 @@ def check_case(ctx: fw.Ctx, case: dict, D: list[fw.Case], stats: bool = True) ->
     ctx.cov['traces_validated_against_impl'] += 1
     D.append(d_case(case, obs))
     fails = monitor(case, obs)
+    for evtype, essential, flag in obs.get('reset_flags', []):
+        if stats:
+            ctx.count('event_feed', f'type={evtype} essential={essential} -> reset={flag}')
+        if flag != essential:
+            fails.append(('reset-flag', f'a {evtype!r} event with an {"" if essential else "un"}changed essence '
+                          f'{"does not reset" if essential else "resets"} the idle time (processing._detect_causes)',
+                          flag, essential))
     for sig, what, observed, expected in fails:
         ctx.fail(what, case, observed=observed, expected=expected, sig=sig)
     if stats:
@@ -436,6 +452,73 @@ def check_case(ctx: fw.Ctx, case: dict, D: list[fw.Case], stats: bool = True) ->
     return fails
 
 
+def reset_table(ctx: fw.Ctx, only: dict | None = None) -> list[fw.Case]:
+    """D + monitor on the REAL processing._detect_causes: SpawningCause.reset over raw event type x last-handled essence
+    present or not (first sight) x essence changed or not x non-essential noise, against the rule
+    'reset iff there is no last-handled essence or the essence differs from it' (Model: reset_flag)."""
+    from kopf._cogs.configs import configuration
+    from kopf._cogs.structs import bodies, patches, references
+    from kopf._core.engines import indexing
+    from kopf._core.intents import registries
+    from kopf._core.reactor import inventory, processing
+    from kv import vloop
+    out: list[fw.Case] = []
+    loop = vloop.new_loop(0.0)
+    try:
+        with vloop.running(loop):
+            settings = configuration.OperatorSettings()
+            resource = references.Resource(group='kopf.dev', version='v1', plural='kopfexamples')
+            handler = drv.make_handler({'interval': 1000, 'idle': 1000}, lambda **_: None)
+            registry = registries.OperatorRegistry()
+            registry._spawning.append(handler)
+            for evtype in (None, 'ADDED', 'MODIFIED', 'DELETED'):
+                for has_base in (False, True):
+                    for changed in (False, True):
+                        for noise in (False, True):
+                            for field in ('spec', 'labels'):
+                                if only is not None and (only.get('event_type'), only.get('has_last_handled'), only.get('essence_changed'),
+                                                         only.get('noise'), only.get('changed_field')) != (evtype, has_base, changed, noise, field):
+                                    continue
+                                old = {'metadata': {'name': 'o', 'namespace': 'ns', 'uid': 'u', 'resourceVersion': '1', 'labels': {'a': 'x'}},
+                                       'spec': {'n': 1}, 'status': {'s': 1}}
+                                b0 = bodies.Body(old)
+                                ann: dict = {}
+                                if has_base:
+                                    p = patches.Patch({})
+                                    settings.persistence.diffbase_storage.store(
+                                        body=b0, patch=p, essence=settings.persistence.diffbase_storage.build(body=b0, extra_fields=set()))
+                                    ann = dict(p['metadata']['annotations'])
+                                new = json.loads(json.dumps(old))
+                                new['metadata']['annotations'] = ann
+                                if changed:
+                                    if field == 'spec':
+                                        new['spec']['n'] = 2
+                                    else:
+                                        new['metadata']['labels']['a'] = 'y'
+                                if noise:
+                                    new['status']['s'] = 2
+                                    new['metadata']['resourceVersion'] = '2'
+                                    new['metadata']['generation'] = 7
+                                found = processing._detect_causes(
+                                    indexers=indexing.OperatorIndexers(), registry=registry, settings=settings, resource=resource,
+                                    raw_event={'type': evtype, 'object': new}, body=bodies.Body(new), patch=patches.Patch({}),
+                                    memory=inventory.ResourceMemory(), local_logger=drv._LOG, event_logger=drv._LOG)
+                                flag = bool(found[1].reset)
+                                data = {'event_type': evtype, 'has_last_handled': has_base, 'essence_changed': changed,
+                                        'changed_field': field, 'noise': noise, 'reset': flag}
+                                ctx.count('reset_table', f'type={evtype} base={has_base} changed={changed} -> {flag}')
+                                expected = (not has_base) or changed
+                                if flag != expected:
+                                    ctx.fail('SpawningCause.reset differs from "the essence differs from the last-handled one": an essential change '
+                                             'would not (or a non-essential one would) reset the timers\' idle time', data,
+                                             observed=flag, expected=expected, sig='reset-flag')
+                                out.append(fw.Case(f'Bool.eqb (reset_flag {cq.cbool(has_base)} {cq.cbool(changed)}) {cq.cbool(flag)}', data,
+                                                   diag=f'reset_flag {cq.cbool(has_base)} {cq.cbool(changed)}'))
+    finally:
+        vloop.close_loop(loop)
+    return out
+
+
 def run(ctx: fw.Ctx) -> int:
     ctx.matchers = {}
     ctx.proofs(gen=awaits.generate)
@@ -466,6 +549,7 @@ def run(ctx: fw.Ctx) -> int:
         for c in ctx.rng.sample(sw, 400):
             check_case(ctx, norm_case(c), D)
     ctx.differential('timer', HEADER, D, shard=150)
+    ctx.differential('reset', HEADER, reset_table(ctx), shard=150)
 
     # race stream (monitor only): re-run cases with idling, injecting an essential change k loop iterations
     # into the very instant at which a run started in the first pass
@@ -507,6 +591,9 @@ def run(ctx: fw.Ctx) -> int:
 
 def replay(ctx: fw.Ctx, body: dict) -> bool:
     case = body.get('case')
+    if isinstance(case, dict) and 'essence_changed' in case:
+        reset_table(ctx, only=case)
+        return bool(ctx.failures)
     if not isinstance(case, dict) or 'script' not in case:
         return False
     if case.get('float'):
